@@ -34,7 +34,67 @@ fn empty(v: &Value) -> bool {
     v.as_object().map(|o| o.is_empty()).unwrap_or(true)
 }
 
-/// pointwise model of reset_remove on the serde tree (pending-remove tables are left out, see DESIGN 2.8)
+/// pointwise model of reset_remove on a pending-remove table: every pending remove keeps the part of its context the clock
+/// does not cover; one whose context is covered entirely is forgotten; removes whose remaining contexts coincide are united
+/// (deterministic since the fix: commit 92476d5; before it the winner depended on hash order, DESIGN 2.8)
+fn rr_deferred(d: &Value, c: &Clock) -> Value {
+    let mut out: std::collections::BTreeMap<String, Vec<Value>> = Default::default();
+    if let Value::Object(o) = d {
+        for (k, members) in o {
+            let kv: Value = serde_json::from_str(k).expect("a pending-remove key is a serialised clock");
+            // a VClock serialises as its dot map (or, should that ever change, as {"dots": map}): keep the shape
+            let wrapped = kv.get("dots").is_some();
+            let dots = rr_clock(if wrapped { &kv["dots"] } else { &kv }, c);
+            if empty(&dots) {
+                continue;
+            }
+            let e = out.entry(if wrapped { json!({ "dots": dots }).to_string() } else { dots.to_string() }).or_default();
+            for m in members.as_array().map(|a| a.as_slice()).unwrap_or(&[]) {
+                if !e.contains(m) {
+                    e.push(m.clone());
+                }
+            }
+        }
+    }
+    let mut m = JMap::new();
+    for (k, mut v) in out {
+        v.sort_by_key(|e| e.to_string());
+        m.insert(k, Value::Array(v));
+    }
+    Value::Object(m)
+}
+
+/// all pending-remove contexts in a tree, at any depth
+fn deferred_contexts(v: &Value, out: &mut Vec<Clock>) {
+    match v {
+        Value::Object(o) => {
+            for (k, x) in o {
+                if k == "deferred" {
+                    if let Value::Object(d) = x {
+                        for key in d.keys() {
+                            if let Ok(kv) = serde_json::from_str::<Value>(key) {
+                                let mut c = Clock::new();
+                                let dv = if kv.get("dots").is_some() { &kv["dots"] } else { &kv };
+                                if let Some(dots) = dv.as_object() {
+                                    for (a, n) in dots {
+                                        c.insert(a.parse().unwrap(), n.as_u64().unwrap());
+                                    }
+                                }
+                                out.push(c);
+                            }
+                        }
+                    }
+                } else {
+                    deferred_contexts(x, out);
+                }
+            }
+        }
+        Value::Array(a) => a.iter().for_each(|x| deferred_contexts(x, out)),
+        _ => {}
+    }
+}
+
+/// pointwise model of reset_remove on the serde tree, pending-remove tables included
 pub fn rr_tree(shape: &TShape, v: &Value, c: &Clock) -> Value {
     match shape {
         TShape::Clock => rr_clock(v, c),
@@ -61,7 +121,7 @@ pub fn rr_tree(shape: &TShape, v: &Value, c: &Clock) -> Value {
                     ents.insert(m.clone(), k);
                 }
             }
-            json!({"clock": rr_clock(&v["clock"], c), "entries": ents})
+            json!({"clock": rr_clock(&v["clock"], c), "entries": ents, "deferred": rr_deferred(&v["deferred"], c)})
         }
         TShape::MapOf(inner) => {
             let mut ents = JMap::new();
@@ -71,7 +131,7 @@ pub fn rr_tree(shape: &TShape, v: &Value, c: &Clock) -> Value {
                     ents.insert(k.clone(), json!({"clock": kc, "val": rr_tree(inner, &e["val"], c)}));
                 }
             }
-            json!({"clock": rr_clock(&v["clock"], c), "entries": ents})
+            json!({"clock": rr_clock(&v["clock"], c), "entries": ents, "deferred": rr_deferred(&v["deferred"], c)})
         }
     }
 }
@@ -230,12 +290,47 @@ fn check_reset<S: Subject>(plan: &Plan, ctx: &Ctx, stats: &mut Stats, shape: &TS
         let Event::Probe { a, b, c, d } = ev else { continue };
         let r = idx(d, sim.reps.len());
         let st = &sim.reps[r].st;
-        let tree = strip_deferred(&to_tree(st));
+        let tree = to_tree(st);
         let sc = state_clock(shape, &tree);
-        let (clk, mode) = relative_clock(&sc, a, b, c);
+        let (mut clk, mut mode) = relative_clock(&sc, a, b, c);
+        // a quarter of the probes at a state that holds pending removes aim at them: the clock covers one pending remove's
+        // context entirely (alone -- possibly naming only actors the state's own clock has never seen -- or joined with the
+        // relative clock), or all but one of its dots
+        let mut pend = Vec::new();
+        deferred_contexts(&tree, &mut pend);
+        if !pend.is_empty() {
+            stats.class("probed state holds a pending remove");
+            if b % 4 == 0 {
+                let p = pend[idx(c, pend.len())].clone();
+                match (b / 4) % 3 {
+                    0 => {
+                        clk = p;
+                        mode = "exactly one pending remove's context";
+                    }
+                    1 => {
+                        join(&mut clk, &p);
+                        mode = "relative clock joined with one pending remove's context";
+                    }
+                    _ => {
+                        let mut q = p.clone();
+                        if let Some(first) = p.keys().next().copied() {
+                            let n = q[&first];
+                            if n > 1 {
+                                q.insert(first, n - 1);
+                            } else {
+                                q.remove(&first);
+                            }
+                        }
+                        clk = q;
+                        mode = "one pending remove's context minus one dot";
+                    }
+                }
+                stats.class("reset_remove clock aimed at a pending remove");
+            }
+        }
         let mut after = st.clone();
         S::reset_remove(&mut after, &clk);
-        let got = strip_deferred(&to_tree(&after));
+        let got = to_tree(&after);
         let want = rr_tree(shape, &tree, &clk);
         stats.observations += 1;
         if sim.trace {
@@ -264,7 +359,7 @@ fn check_reset<S: Subject>(plan: &Plan, ctx: &Ctx, stats: &mut Stats, shape: &TS
         join(&mut j, &clk2);
         let mut sj = st.clone();
         S::reset_remove(&mut sj, &j);
-        if strip_deferred(&to_tree(&s12)) != strip_deferred(&to_tree(&sj)) || S::observe(&s12) != S::observe(&sj) {
+        if to_tree(&s12) != to_tree(&sj) || S::observe(&s12) != S::observe(&sj) {
             return Err(fail_with(&sim, stats, Fail::new(format!("r{r}: reset_remove({clk:?}) then ({clk2:?}) differs from reset_remove of their join {j:?}"))));
         }
         let mut twice = after.clone();
@@ -318,7 +413,7 @@ pub fn property() -> Property {
     add::<SPNCounter>(&mut jobs, TShape::Pn, 12000, 100_000, 0.02);
     Property {
         id: "C18",
-        rule: "Reachable states of VClock, GCounter, PNCounter, MVReg, Orswot, Map<u8,Orswot>, Map<u8,MVReg>, Map<u8,Map<u8,MVReg>> (histories with merges and, for Orswot/Map, per-actor delivery so pending removes exist) x clocks generated RELATIVE to the state's clock (below, equal, above, concurrent/mixed incl. foreign actors, empty, single-actor slice), at Probe steps. Oracle: the state tree after reset_remove(c) equals the pointwise model (every witness clock keeps exactly the entries strictly newer than c; emptied members/keys/values dropped; nested values reset recursively; top clock reset), plus the laws rr(empty)=identity (==), rr(own full clock) leaves all reads empty, rr(c1);rr(c2) == rr(c1 join c2), rr(c);rr(c) == rr(c). Non-trivial = c is concurrent with the state's clock and covers some but not all entries of >=1 witness; distinct = distinct Plan hash.".into(),
+        rule: "Reachable states of VClock, GCounter, PNCounter, MVReg, Orswot, Map<u8,Orswot>, Map<u8,MVReg>, Map<u8,Map<u8,MVReg>> (histories with merges and, for Orswot/Map, per-actor delivery so pending removes exist) x clocks generated RELATIVE to the state's clock (below, equal, above, concurrent/mixed incl. foreign actors, empty, single-actor slice) and, where the probed state holds pending removes, clocks aimed at them (exactly one pending remove's context, that context joined with a relative clock, the context minus one dot), at Probe steps. Oracle: the state tree after reset_remove(c) equals the pointwise model (every witness clock keeps exactly the entries strictly newer than c; emptied members/keys/values dropped; nested values reset recursively; top clock reset; every pending remove keeps the part of its context c does not cover, is forgotten when nothing is left, and is united with another whose remaining context coincides), plus the laws rr(empty)=identity (==), rr(own full clock) leaves all reads empty, rr(c1);rr(c2) == rr(c1 join c2), rr(c);rr(c) == rr(c). Non-trivial = c is concurrent with the state's clock and covers some but not all entries of >=1 witness; distinct = distinct Plan hash.".into(),
         assumptions: vec!["the pending-remove (deferred) tables are not compared after a reset: two pending clocks can collapse into one key with an iteration-order dependent winner (DESIGN 2.8)".into()],
         jobs,
     }
